@@ -30,7 +30,7 @@ ASSUMPTIONS = [
     'peering is exercised only in cluster-wide mode here (C13 covers peering as such)',
     'a list/watch request begun before a pause may still be retried by the API client during the pause (its backoff sleeps are not interruptible); only new requests count',
 ]
-BUDGET = {'quick': 60, 'thorough': 2500}
+BUDGET = {'quick': 60, 'thorough': 1500}
 TOL = 1e-6
 
 KCT = ('kopf.dev', 'v1', 'kopfclusterthings')
